@@ -450,7 +450,9 @@ MANIFEST = {
                   "key.  After every step every generated file of every world must be byte-identical to the first one produced for "
                   "that (world, entry point, relative path).  Steps may reuse the output directory as the previous step left it, may "
                   "document several lone files in one call, may meet byte-identical modules, and may suffer a transient listing "
-                  "failure (then they either fail loudly or produce the same files as ever).",
+                  "failure (then they either fail loudly or produce the same files as ever).  Worlds may carry signature twins "
+                  "(same parameter list on plain and keyword-collecting definitions across files and worlds) with parameter-name "
+                  "strip patterns set from a -s file.",
     "level_note": "trusted: workers run under PYTHONHASHSEED 0 and 4242, the companion under 98765; API pages are compared among "
                   "themselves (dataclass defaults differ from the YAML defaults)",
 }
